@@ -1506,6 +1506,98 @@ def val_flag (requires : List String) (validators : List String) : Bool := valid
     return out
 
 
+def b_sample_cell(S):
+    """whole `populate_sample_cell` with its two nested helpers (`choose_geometries`: index window -> `iloc`; `resolve_samples`: crop the candidates to the sample
+    circle if any of them meets it, else nothing): the circle from the cell's centroid and area, the empty-window exit, optional per-cell extraction, branch / node /
+    trace samples, node counts, and the one call of `determine_topology_parameters` with its keyword arguments checked. Geometry, the crop, the index and the parameter
+    function are parameters; nodes are (point, class) pairs."""
+    src0 = S[GRID]
+    out = translate_function(
+        src0, "populate_sample_cell.choose_geometries", "sc_choose_geometries", {"sindex": "S", "sample_circle": "C", "geometries": "List α"}, "List α",
+        {"spatial_index_intersection(sindex, geom_bounds(sample_circle))": "(window sindex sample_circle)", "geometries.iloc[candidates_idx]": "(List.filterMap (fun i => geometries[i]?) candidates_idx)",
+         "isinstance(candidates, gpd.GeoDataFrame)": "true"},
+        types={"spatial_index_intersection(sindex, geom_bounds(sample_circle))": "List Nat", "candidates_idx": "List Nat", "geometries.iloc[candidates_idx]": "List α", "candidates": "List α",
+               "isinstance(candidates, gpd.GeoDataFrame)": "Bool"},
+        extra_params=[("{S}", "Type"), ("{C}", "Type"), ("{α}", "Type"), ("window", "S → C → List Nat")], default_num="Nat")
+    out += "\n" + translate_function(
+        src0, "populate_sample_cell.resolve_samples", "sc_resolve_samples", {"candidates": "List G", "sample_circle": "C"}, "List G",
+        {"any((candidate.intersects(sample_circle) for candidate in candidates.geometry.values))": "(List.any candidates (fun candidate => meets candidate sample_circle))",
+         "crop_to_target_areas(traces=candidates, areas=gpd.GeoSeries([sample_circle]), is_filtered=True, keep_column_data=False)": "(crop candidates sample_circle)",
+         "candidates.iloc[0:0]": "[]"},
+        types={"any((candidate.intersects(sample_circle) for candidate in candidates.geometry.values))": "Bool",
+               "crop_to_target_areas(traces=candidates, areas=gpd.GeoSeries([sample_circle]), is_filtered=True, keep_column_data=False)": "List G", "candidates.iloc[0:0]": "List G", "samples": "List G"},
+        extra_params=[("{G}", "Type"), ("{C}", "Type"), ("meets", "G → C → Bool"), ("crop", "List G → C → List G")], default_num="Nat", join="tuple")
+    src = standalone(src0, "populate_sample_cell", [
+        (r"    if traces_sindex is None:\n        traces_sindex: SpatialIndex = traces\.sindex\n", "    traces_sindex = traces.sindex\n"),
+        # the per-cell extraction as ONE raising statement (the translator joins `if` branches as values, an exception inside a branch has no value)
+        (r"    if resolve_branches_and_nodes:\n(?:        #.*\n)*        branches, nodes = branches_and_nodes\(\n            traces=trace_candidates,\n            areas=gpd\.GeoSeries\(\[sample_circle\], crs=traces\.crs\),\n            snap_threshold=snap_threshold,\n        \)\n",
+         "    branches, nodes = resolve_if_asked(resolve_branches_and_nodes, trace_candidates, sample_circle, branches, nodes)\n"),
+        (r"            assert sample_nodes is not None\n            assert all\(isinstance\(val, Point\) for val in sample_nodes\.geometry\.values\)\n", ""),
+    ])
+    if "traces_sindex is None" in src or "resolve_if_asked(" not in src or "branches_and_nodes(" in src or "assert sample_nodes is not None" in src:
+        raise Untranslatable("populate_sample_cell: a checked rewriting (index default, per-cell extraction, node assertions) did not apply")
+    NODES = "List (P × String)"
+    CH = "(sc_choose_geometries window {i} sample_circle {g})"
+    RS = "(sc_resolve_samples meets crop {c} sample_circle)"
+    C = {
+        "sample_cell.centroid": "(centroid_of sample_cell)", "not isinstance(centroid, Point)": "(!(is_point centroid))",
+        "safe_buffer(centroid, np.sqrt(sample_cell_area) * 1.5)": "(circle_of centroid sample_cell_area)",
+        "sample_circle.area": "(area_of sample_circle)", "sample_circle_area > 0": "true",
+        "traces.sindex": "(tindex traces)", "branches.sindex": "(bindex branches)", "nodes.sindex": "(nindex nodes)",
+        "choose_geometries(sindex=traces_sindex, sample_circle=sample_circle, geometries=traces)": CH.format(i="traces_sindex", g="traces"),
+        "choose_geometries(sindex=branches.sindex, sample_circle=sample_circle, geometries=branches)": CH.format(i="(bindex branches)", g="branches"),
+        "choose_geometries(sindex=nodes.sindex, sample_circle=sample_circle, geometries=nodes)": CH.format(i="(nindex nodes)", g="nodes"),
+        "len(trace_candidates) == 0": "(decide (List.length trace_candidates = 0))",
+        "determine_topology_parameters(trace_length_array=np.array([]), node_counts=determine_node_type_counts(np.array([]), branches_defined=True), area=sample_circle_area, branch_length_array=np.array([]), branches_defined=True, correct_mauldon=resolve_branches_and_nodes)":
+            "(topo [] (count_nodes []) sample_circle_area [] true resolve_branches_and_nodes)",
+        "resolve_if_asked(resolve_branches_and_nodes, trace_candidates, sample_circle, branches, nodes)": "(if resolve_branches_and_nodes then ban trace_candidates sample_circle else .ok (branches, nodes))",
+        "branches.shape[0] > 0": "(decide (List.length branches > 0))",
+        "resolve_samples(candidates=branch_candidates, sample_circle=sample_circle)": RS.format(c="branch_candidates"),
+        "resolve_samples(candidates=trace_candidates, sample_circle=sample_circle)": RS.format(c="trace_candidates"),
+        "any((node.intersects(sample_circle) for node in nodes.geometry.values))": "(List.any nodes (fun node => pmeets node.1 sample_circle))",
+        "gpd.clip(node_candidates, sample_circle)": "(List.filter (fun node => pmeets node.1 sample_circle) node_candidates)",
+        "isinstance(sample_nodes, gpd.GeoDataFrame)": "true", "isinstance(sample_branches, gpd.GeoDataFrame)": "true", "isinstance(sample_node_type_values, np.ndarray)": "true",
+        "isinstance(sample_traces, gpd.GeoDataFrame)": "true",
+        "nodes.iloc[0:0]": "[]", "sample_nodes[CLASS_COLUMN].values": "(List.map (fun n => n.2) sample_nodes)",
+        "determine_node_type_counts(sample_node_type_values, branches_defined=True)": "(count_nodes sample_node_type_values)",
+        "determine_node_type_counts(np.array([]), branches_defined=True)": "(count_nodes [])",
+        "sample_branches.geometry.length.values": "(List.map len sample_branches)", "np.array([])": "[]",
+        "determine_topology_parameters(trace_length_array=sample_traces.geometry.length.values, branch_length_array=sample_branches_lengths, node_counts=node_counts, area=sample_circle_area, correct_mauldon=resolve_branches_and_nodes, branches_defined=is_topology_defined)":
+            "(topo (List.map len sample_traces) node_counts sample_circle_area sample_branches_lengths is_topology_defined resolve_branches_and_nodes)",
+    }
+    T = {k: "Bool" for k in C if C[k] == "true"}
+    T.update({
+        "sample_cell.centroid": "Pt0", "centroid": "Pt0", "not isinstance(centroid, Point)": "Bool", "safe_buffer(centroid, np.sqrt(sample_cell_area) * 1.5)": "C", "sample_circle": "C",
+        "sample_circle.area": "Rat", "sample_circle_area": "Rat", "traces.sindex": "S", "traces_sindex": "S", "branches.sindex": "S", "nodes.sindex": "S",
+        "choose_geometries(sindex=traces_sindex, sample_circle=sample_circle, geometries=traces)": "List G", "trace_candidates": "List G",
+        "choose_geometries(sindex=branches.sindex, sample_circle=sample_circle, geometries=branches)": "List G", "branch_candidates": "List G",
+        "choose_geometries(sindex=nodes.sindex, sample_circle=sample_circle, geometries=nodes)": NODES, "node_candidates": NODES,
+        "len(trace_candidates) == 0": "Bool", "branches.shape[0] > 0": "Bool", "is_topology_defined": "Bool",
+        "determine_topology_parameters(trace_length_array=np.array([]), node_counts=determine_node_type_counts(np.array([]), branches_defined=True), area=sample_circle_area, branch_length_array=np.array([]), branches_defined=True, correct_mauldon=resolve_branches_and_nodes)": "R",
+        "resolve_if_asked(resolve_branches_and_nodes, trace_candidates, sample_circle, branches, nodes)": "Except (List G × " + NODES + ")",
+        "branches": "List G", "nodes": NODES,
+        "resolve_samples(candidates=branch_candidates, sample_circle=sample_circle)": "List G", "sample_branches": "List G",
+        "resolve_samples(candidates=trace_candidates, sample_circle=sample_circle)": "List G", "sample_traces": "List G",
+        "any((node.intersects(sample_circle) for node in nodes.geometry.values))": "Bool", "gpd.clip(node_candidates, sample_circle)": NODES, "sample_nodes": NODES, "nodes.iloc[0:0]": NODES,
+        "sample_nodes[CLASS_COLUMN].values": "List String", "sample_node_type_values": "List String",
+        "determine_node_type_counts(sample_node_type_values, branches_defined=True)": "K", "determine_node_type_counts(np.array([]), branches_defined=True)": "K", "node_counts": "K",
+        "sample_branches.geometry.length.values": "List Rat", "np.array([])": "List Rat", "sample_branches_lengths": "List Rat",
+        "determine_topology_parameters(trace_length_array=sample_traces.geometry.length.values, branch_length_array=sample_branches_lengths, node_counts=node_counts, area=sample_circle_area, correct_mauldon=resolve_branches_and_nodes, branches_defined=is_topology_defined)": "R",
+        "topology_parameters": "R",
+    })
+    out += "\n" + translate_function(
+        src, "populate_sample_cell", "populate_sample_cell",
+        {"sample_cell": "Cell", "sample_cell_area": "Rat", "traces": "List G", "nodes": NODES, "branches": "List G", "resolve_branches_and_nodes": "Bool"}, "R", C, types=T, raises=True,
+        extra_params=[("{Cell}", "Type"), ("{Pt0}", "Type"), ("{C}", "Type"), ("{S}", "Type"), ("{G}", "Type"), ("{P}", "Type"), ("{K}", "Type"), ("{R}", "Type"),
+                      ("centroid_of", "Cell → Pt0"), ("is_point", "Pt0 → Bool"), ("circle_of", "Pt0 → Rat → C"), ("area_of", "C → Rat"),
+                      ("tindex", "List G → S"), ("bindex", "List G → S"), ("nindex", NODES + " → S"), ("window", "S → C → List Nat"),
+                      ("meets", "G → C → Bool"), ("pmeets", "P → C → Bool"), ("crop", "List G → C → List G"), ("len", "G → Rat"),
+                      ("count_nodes", "List String → K"), ("topo", "List Rat → K → Rat → List Rat → Bool → Bool → R"),
+                      ("ban", "List G → C → Except String (List G × " + NODES + ")")],
+        slice_from="centroid = sample_cell.centroid", default_num="Nat", join="tuple")
+    return out
+
+
 def b_dedupe(S):
     """`filter_non_unique_traces`: the key of a trace is its WKT at `int(-log10(snap))` decimals (a parameter of type K); the first trace with
     a key is kept, later ones with the same key are dropped, order preserved"""
@@ -2470,6 +2562,7 @@ ITEMS: List[Item] = [
     Item("LineDataCache", LINEDATA, ["C08", "C15", "C11"], b_line_data, extra_modules=[GENERAL]),
     Item("ZCoordinates", GENERAL, ["C03", "C07", "C09", "C11"], b_z_coordinates),
     Item("ValidationCaches", TVAL, ["C02", "C13"], b_validation_caches),
+    Item("SampleCell", GRID, ["C18"], b_sample_cell),
     Item("Cli", CLI, ["C19"], b_cli),
     Item("ErrorColumn", TVAL, ["C19", "C13"], b_error_column),
     Item("DetermineIntersect", REL, ["C12"], b_determine_intersect),
